@@ -295,7 +295,8 @@ func expectDigest(st *types.Stat, content []byte) string {
 // link target / link name, device numbers and, for non-directories, size and
 // mtime.
 func identityEqual(a, b *tree.Entry) bool {
-	if a.Type != b.Type || a.Perm != b.Perm || a.UID != b.UID || a.GID != b.GID {
+	// (the permission bits of a symlink cannot be stored: no difference)
+	if a.Type != b.Type || (a.Type != tree.Symlink && a.Perm != b.Perm) || a.UID != b.UID || a.GID != b.GID {
 		return false
 	}
 	if a.Type == tree.Symlink && a.Target != b.Target {
